@@ -35,6 +35,53 @@ def comps_of(n, atts):
     return [find(i) for i in range(n)]
 
 
+def canon_trace(lines):
+    """S-lines, ans, panic, calls; consecutive clause lines of one solver sorted (literal order ignored)"""
+    out = []
+    group = []
+
+    def flush():
+        if group:
+            out.extend(sorted(group))
+            group.clear()
+    for l in lines:
+        if l.startswith("S "):
+            t = l.split(" ")
+            if len(t) >= 3 and t[2] == "c":
+                lits = sorted(int(x) for x in t[3:] if x)
+                group.append("S %s c %s" % (t[1], " ".join(map(str, lits))))
+                continue
+            flush()
+            if len(t) >= 3 and t[2] == "q":
+                out.append(l)  # assumption order is part of the call, kept as is
+            else:
+                out.append(l)
+        elif l.startswith(("query ", "ans ", "calls ")):
+            flush()
+            out.append(l)
+        elif l.startswith("panic"):
+            flush()
+            out.append("panic")
+        elif l.startswith("T-"):
+            flush()
+            out.append(l)
+    flush()
+    return out
+
+
+def trace_diff(impl, model):
+    it = canon_trace([l for l in impl])
+    if "trace" not in model:
+        return None
+    mt = canon_trace(model[model.index("trace") + 1:])
+    if it == mt:
+        return None
+    k = 0
+    while k < min(len(it), len(mt)) and it[k] == mt[k]:
+        k += 1
+    return {"first_difference": k, "impl": it[k:k + 3], "model": mt[k:k + 3], "before": it[max(0, k - 2):k]}
+
+
 def parse_fw_line(l):
     d = dict(t.split("=", 1) for t in l.split(" ")[1:] if "=" in t)
     n = int(d.get("n", "0"))
@@ -48,6 +95,7 @@ class SolveProperty(Property):
     certs = [0]
     multi = False
     per_arg = True
+    check_trace = True
     max_n = 8
     assumptions = [
         "CaDiCaL (the embedded backend) is a sound and complete SAT solver",
@@ -156,6 +204,13 @@ class SolveProperty(Property):
                 reason = reason[4:]
             fs.append(Finding("input", case_line, reason, self.signature(case_line, impl, reason.split(":")[0]),
                               {"impl": [l for l in impl if not l.startswith("S ")][:12]}))
+        if not fs and self.check_trace:
+            d = trace_diff(impl, model)
+            if d is not None:
+                p = kv(case_line)
+                fs.append(Finding("correspondence", case_line,
+                                  "SAT-level trace of the real solver differs from the Lean step-machine model",
+                                  "%s/%s/cert=%s · trace differs from model" % (p.get("sem"), p.get("task"), p.get("cert", "0")), d))
         return fs
 
     def same_class(self, f, cur):
